@@ -85,6 +85,6 @@ def doWF(vtChannels: np.ndarray,
     ])
     vtOptP[vtChannelsSortIndexes[np.arange(0, dNChannels -
                                            dRemoveChannels)]] = vtOptPaux
-    mu = vtOptPaux[0] + float(noiseVar) / vtChannelsSorted[0]
+    mu = vtOptPaux[0] + float(noiseVar) / (Es * vtChannelsSorted[0])
 
     return vtOptP, mu
